@@ -222,8 +222,41 @@ def r4_cfg_boundary(ctx, m, me) -> None:
     lp = loops[0]
     ch = lp.target.id
     op = f"self.hugr[{ch}].op"
+    # the source link is latched by the first basic block: either an optional local (None until then, sources=[src]) or a list that
+    # stays empty until then (sources=links)
     src_name = sv.elts[0].id if isinstance(sv, ast.List) and len(sv.elts) == 1 and isinstance(sv.elts[0], ast.Name) else None
+    src_list = False
+    if src_name is None and isinstance(sv, ast.Name):
+        inits = [s_ for s_ in fn.body[: fn.body.index(lp)] if isinstance(s_, (ast.Assign, ast.AnnAssign)) and u(s_.targets[0] if isinstance(s_, ast.Assign) else s_.target) == sv.id]
+        if len(inits) == 1 and isinstance(inits[0].value, ast.List) and not inits[0].value.elts:
+            src_name, src_list = sv.id, True
     tgt_name = tv.id if isinstance(tv, ast.Name) else None
+
+    def latch_state(p):
+        """True: the path found the latch empty (this is the first block), False: already set, None: not asked"""
+        for t, k in p.tests:
+            txt = u(t)
+            if not src_list and txt == f"{src_name} is not None":
+                return not k
+            if src_list and txt == src_name:
+                return not k
+            if src_list and txt in (f"len({src_name}) == 0", f"0 == len({src_name})"):
+                return k
+            if src_list and txt in (f"len({src_name}) > 0", f"len({src_name}) >= 1", f"len({src_name}) != 0"):
+                return not k
+        return None
+
+    def latched(p):
+        """the link the path stores in the latch (text), '' when it leaves the latch alone"""
+        if not src_list:
+            return u(p.env[src_name]) if src_name in p.env else ""
+        app = p.find_effect(f"{src_name}.append(E_v)")
+        if app:
+            return app[0][2]["E_v"] if len(app) == 1 else "<several>"
+        if src_name in p.env:
+            v = p.env[src_name]
+            return u(v.elts[0]) if isinstance(v, ast.List) and len(v.elts) == 1 else u(v)
+        return ""
     pre = [s_ for s_ in fn.body[: fn.body.index(lp)] if isinstance(s_, (ast.Assign, ast.AnnAssign)) and u(s_.targets[0] if isinstance(s_, ast.Assign) else s_.target) not in (src_name, tgt_name)]
     bps = summaries(pre + lp.body)
     ok_src = ok_first = ok_tgt = ok_ref = bool(bps) and src_name is not None and tgt_name is not None
@@ -232,15 +265,15 @@ def r4_cfg_boundary(ctx, m, me) -> None:
     for p in bps:
         cls = [u(t.args[1]) for t, k in p.tests if k and isinstance(t, ast.Call) and u(t.func) == "isinstance" and u(t.args[0]) == op]
         if cls and cls[0] == "DataflowBlock":
-            first = [k for t, k in p.tests if u(t) == f"{src_name} is not None"]
-            if not first:
+            first = latch_state(p)
+            if first is None:
                 ok_first = False
-            elif not first[0]:
+            elif first:
                 seen.add("entry")
-                found_src = u(p.env[src_name]) if src_name in p.env else "<not set>"
-                ok_src = ok_src and src_name in p.env and u(p.env[src_name]) == f"self.link_name(InPort({ch}, 0))"
+                found_src = latched(p) or "<not set>"
+                ok_src = ok_src and latched(p) == f"self.link_name(InPort({ch}, 0))"
             else:
-                ok_first = ok_first and src_name not in p.env
+                ok_first = ok_first and latched(p) == ""
         elif cls and cls[0] == "ExitBlock":
             seen.add("exit")
             ok_tgt = ok_tgt and tgt_name in p.env and u(p.env[tgt_name]) in (f"[self.link_name(InPort({ch}, 0))]", f"[self.link_name(InPort({ch}, c0)) for c0 in range(1)]")
